@@ -162,6 +162,10 @@ func (q *Queue) Add(elem *queue.Elem) (err error) {
 			} else {
 				err = conn.Send("lrem", getKey(q.clientID), 1, dropBytes)
 			}
+			// a sacrificed inflight element is gone: a late acknowledgement of its packet id refers to nothing
+			if id := dropElem.ID(); id != 0 {
+				delete(q.readCache, id)
+			}
 			q.notifier.NotifyDropped(dropElem, dropErr)
 		} else {
 			q.notifier.NotifyMsgQueueAdded(1)
